@@ -18,6 +18,7 @@
 -/
 import MajoranaVerif.Proofs.Mvp4Run
 import MajoranaVerif.Proofs.Mvp5Run
+import MajoranaVerif.Proofs.MsiCoherence
 open GoInt Model Model.Mvp4 Model.Seq Proofs.Mvp4
 
 namespace Props.C10
@@ -165,5 +166,74 @@ example : (Model.Mvp5.run exApp5 exCtx 8000).halt = some .ret ∧
     GoMap.get1 (Model.Mvp5.run exApp5 exCtx 8000).final.base.ctx.Registers 6 = 77#32 ∧
     GoMap.get1 (Model.Mvp5.run exApp5 exCtx 8000).final.base.ctx.Registers 8 = 5#32 ∧
     (Model.Mvp5.run exApp5 exCtx 8000).final.base.ctx.Memory.take 4 = [5#8, 0#8, 0#8, 0#8] := by decide
+
+end Props.C10
+
+/-! ## C10 on the multi-core variants (MVP-7.0 / 7.1 / 8), at the level of the MSI protocol (work package COH)
+
+On the abstract protocol model `Model.Msi` (tied to the real cache controllers by the refinement replay of the C06 check;
+invariant `Proofs.Msi.Inv`): a store takes effect exactly when its write request completes — from then on the current
+value of its line (`Proofs.MsiCoherence.cur`: the Modified holder's copy, else the next level) is the stored value, for
+EVERY core, until the next write to that line completes; a load that completes in between returns it, whichever core
+issues it and however the line travels (write-back to the next level, refill, upgrade).  Proofs: `Proofs/MsiCoherence.lean`. -/
+
+namespace Props.C10
+open Model.Msi Proofs.Msi Proofs.MsiCoherence
+
+variable {D : Type}
+
+/-- **a store is visible as soon as it completes**: after `complete c v` of a write request on line `l` the current value
+of `l` is `v` (and the writer's own copy is `v`: it holds the line Modified) -/
+theorem Msi.write_takes_effect (σ : Model.Msi.State D) (h : Inv σ) (c : Core) (v : D) (r : Req D) (hr : σ.req c = some r)
+    (hs : r.stage = .l1) (hw : r.mode.isRead = false) :
+    cur (Model.Msi.step σ (.complete c v)) r.line = v := by
+  rw [cur_step h (.complete c v) (Or.inl rfl)]
+  have : written σ (.complete c v) = some (r.line, v) := by
+    simp only [written, hr, hs, hw, Bool.false_eq_true, if_false]
+  rw [this]
+  simp [applyWrite]
+
+/-- **a load sees the latest older store**: if a write of `v` to line `l` has completed (state `σ`, `cur σ l = v`) and no
+write to `l` completes during the safe history `as` that follows, then every read of `l` that is about to complete at the
+end of `as` — by any core — returns `v` -/
+theorem Msi.read_after_write (σ : Model.Msi.State D) (h : Inv σ) (as : List (Action D)) (hs : SafeRun σ as)
+    (l : Model.Msi.Line) (hnone : ∀ w ∈ writesOf σ as, w.1 ≠ l)
+    (c : Core) (r : Req D) (hr : (Model.Msi.run σ as).req c = some r) (hl : r.line = l) (hst : r.stage = .l1)
+    (hrd : r.mode.isRead = true) :
+    (Model.Msi.run σ as).l1 c l = some (cur σ l) := by
+  have hi := inv_run h as hs
+  have h1 := Proofs.MsiCoherence.read_returns_cur hi c r hr hst hrd
+  rw [hl] at h1
+  rw [h1, cur_run h as hs l]
+  congr 1
+  unfold lastWrite
+  generalize writesOf σ as = ws at hnone
+  generalize cur σ = f
+  induction ws generalizing f with
+  | nil => rfl
+  | cons w ws ih =>
+    simp only [List.foldl_cons]
+    rw [ih (fun w' hw' => hnone w' (List.mem_cons_of_mem _ hw'))]
+    have := hnone w (by simp)
+    simp [Ne.symm this]
+
+/-- the order of two stores to one line is the order of their completions: the current value after both is the second one's -/
+theorem Msi.last_write_wins (f : Model.Msi.Line → D) (ws : List (Model.Msi.Line × D)) (l : Model.Msi.Line) (v : D) :
+    lastWrite f (ws ++ [(l, v)]) l = v := by
+  unfold lastWrite
+  rw [List.foldl_append]
+  simp
+
+/-- two cores, line 7: core 0 stores 11; core 1 loads (snoop write-back of core 0); core 1 stores 22; core 0 loads -/
+def Msi.cohActions : List (Action Nat) :=
+  [.start 0 7 true, .proceed 0, .push 0 none, .complete 0 11,
+   .start 1 7 false, .snoop 0 7 .writeBack, .proceed 1, .push 1 none, .complete 1 0,
+   .start 1 7 true, .proceed 1, .complete 1 22,
+   .start 0 7 false, .snoop 1 7 .writeBack, .proceed 0, .push 0 none]
+
+def Msi.cohAt (k : Nat) : Model.Msi.State Nat := Model.Msi.run (Model.Msi.init 2 (fun l => l + 100)) (Msi.cohActions.take k)
+
+/-- Non-vacuity: after core 0's store of 11 core 1's load returns 11; after core 1's store of 22 core 0's load returns 22 -/
+example : ((Msi.cohAt 8).l1 1 7, (Msi.cohAt 16).l1 0 7) = (some 11, some 22) := by decide
 
 end Props.C10
